@@ -12,9 +12,15 @@ RULE = ("scenes from the seed: 3..5 (thorough 3..7) cells per axis, consistent f
         "isotropic/diagonal inv_eps, scalar/iso/diagonal inv_mu, optional sigma_E and sigma_H, random wall-projected "
         "state, random step index t of a run of ~8 steps. K: (a) the additive source terms jE, jH are probed from "
         "update_E/update_H on zero fields, then forward() vs model fwd and backward() vs model bwd (1e-9), which also "
-        "checks that the injected increment does not depend on the fields; (b) full-tensor (9-component) lossless "
-        "materials: implementation-only round trip. Property oracle on every case: |backward(forward(s)) - s| <= 1e-9. "
-        "non-trivial = has a source that is on at t, or conductivity, or a non-'none' face.")
+        "checks that the injected increment does not depend on the fields; (b) full-tensor tier (model YeeAniso, ops "
+        "afwd/abwd): 4 forced + generated scenes whose update_E and/or update_H takes the 9-component branch (full SPD "
+        "or non-symmetric inv_eps / inv_mu, or a 9-component sigma next to a 1/3-component inverse tensor; the other "
+        "field in any tier incl. scalar inv_mu), lossless or lossy (sigma of 1/3/9 components), uniform grid or "
+        "stretched grid (spacing-weighted averages), zero/periodic/Bloch/PEC/PMC faces, 0..1 source when lossless: "
+        "forward() vs afwd and backward() vs abwd at 1e-9. Property oracle on every diagonal-tier case and every "
+        "LOSSLESS full-tensor case: |backward(forward(s)) - s| <= 1e-9 (lossy full tensors are outside the claim; "
+        "see aniso_lossy_roundtrip_fails). non-trivial = has a source that is on at t, or conductivity, or a "
+        "non-'none' face, or a full tensor.")
 
 PAIRS_OK = [("none", "none"), ("periodic", "periodic"), ("pec", "pec"), ("pmc", "pmc"), ("pec", "none"), ("none", "pmc"),
             ("pec", "pmc"), ("pmc", "pec")]
@@ -173,47 +179,232 @@ def one_case(ctx, c, sample=False):
         ctx.violation(c, d)
 
 
-def aniso_case(ctx, rng):
-    """fully anisotropic lossless tensors: implementation-side round trip only (no theorem, no model)"""
-    j = Y.J()
-    c = gen_case(rng, False, dict(sources=[], sig_e=False, sig_h=False))
-    if rng.chance(0.4):   # Bloch phase on one axis: the halo of the averaged curl must carry the phase too
+# ------------------------------------------------------------------ fully anisotropic (9-component) tier
+ANISO_FORCED = [
+    # lossless, uniform grid, periodic everywhere, full inv_eps and full inv_mu
+    dict(shape=[4, 3, 4], faces={k: "periodic" for k in Y.FACES}, bloch=False, bloch_vector=[0.0, 0.0, 0.0], widths=None,
+         eps_tier=9, mu_tier=9, sig_e_tier=None, sig_h_tier=None, sources=[]),
+    # lossless, stretched grid (spacing-weighted averages), PEC / PMC / open faces, scalar inv_mu
+    dict(shape=[3, 4, 4], faces={"min_x": "pec", "max_x": "pmc", "min_y": "none", "max_y": "pec", "min_z": "pmc", "max_z": "none"},
+         bloch=False, bloch_vector=[0.0, 0.0, 0.0], widths="stretch", eps_tier=9, mu_tier=0, sig_e_tier=None, sig_h_tier=None, sources=[]),
+    # lossy: full sigma_E (A has off-diagonal entries acting on averaged neighbours), Bloch axis + periodic axis
+    dict(shape=[3, 4, 3], faces={"min_x": "bloch", "max_x": "bloch", "min_y": "periodic", "max_y": "periodic", "min_z": "none", "max_z": "none"},
+         bloch=True, bloch_vector=[1.3e7, -0.7e7, 0.9e7], widths=None, eps_tier=9, mu_tier=3, sig_e_tier=9, sig_h_tier=None, sources=[]),
+    # lossy: full sigma_H with a diagonal inv_mu and full inv_eps with diagonal sigma_E, stretched grid, periodic + wall mix
+    dict(shape=[4, 3, 3], faces={"min_x": "periodic", "max_x": "periodic", "min_y": "pmc", "max_y": "none", "min_z": "pec", "max_z": "pec"},
+         bloch=False, bloch_vector=[0.0, 0.0, 0.0], widths="stretch", eps_tier=9, mu_tier=3, sig_e_tier=3, sig_h_tier=9, sources=[]),
+]
+
+
+def gen_aniso(rng, thorough, force=None):
+    """a scene of the full-tensor branch of update_E and/or update_H (at least one of them)"""
+    c = gen_case(rng, thorough, dict(sig_e=False, sig_h=False))
+    if rng.chance(0.3):   # Bloch phase on one more axis: corner ghosts of the averaged arrays carry both multipliers
         ax = rng.randint(0, 2)
         c["faces"][Y.FACES[2 * ax]] = c["faces"][Y.FACES[2 * ax + 1]] = "bloch"
         c["bloch"] = True
-        c["bloch_vector"] = [rng.uniform(0.5e7, 2e7) * rng.choice([-1, 1]) for _ in range(3)]
     if c["bloch"]:
-        c["widths"] = None
-    elif c["widths"] is None and rng.chance(0.6):   # the averaging stencils are spacing-weighted only on stretched grids
-        c["widths"] = [[50e-9 * rng.uniform(0.5, 2.0) for _ in range(n)] for n in c["shape"]]
+        c["bloch_vector"] = [rng.uniform(0.5e7, 2e7) * rng.choice([-1, 1]) for _ in range(3)]
+    c["widths"] = "stretch" if rng.chance(0.5) else None
+    if len(c["sources"]) > 1:
+        c["sources"] = c["sources"][:1]
+    which = rng.choice(["E", "E", "H", "EH", "EH"])
+    lossy = rng.chance(0.5)
+    c["eps_tier"] = 9 if ("E" in which and rng.chance(0.8)) else rng.choice([1, 3])
+    c["sig_e_tier"] = None
+    if "E" in which and c["eps_tier"] != 9:
+        c["sig_e_tier"] = 9
+    elif lossy and "E" in which:
+        c["sig_e_tier"] = rng.choice([9, 9, 3, 1])
+    elif lossy and rng.chance(0.5):
+        c["sig_e_tier"] = rng.choice([1, 3])
+    c["mu_tier"] = 9 if ("H" in which and rng.chance(0.8)) else rng.choice([0, 1, 3])
+    c["sig_h_tier"] = None
+    if "H" in which and c["mu_tier"] != 9:
+        c["sig_h_tier"] = 9
+    elif lossy and "H" in which:
+        c["sig_h_tier"] = rng.choice([9, 9, 3, 1])
+    elif lossy and rng.chance(0.5):
+        c["sig_h_tier"] = rng.choice([1, 3])
+    c["nonsym"] = rng.chance(0.25)
+    if force:
+        c.update(force)
     c["aniso"] = True
-    d = aniso_fails(c)
-    ctx.case(nontrivial=("aniso", c["seed"]), aniso=True, aniso_grid="nonuniform" if c["widths"] else "uniform", aniso_bloch=c["bloch"])
+    if c["sig_e_tier"] is not None or c["sig_h_tier"] is not None:
+        # sources only with lossless tensors: the probed term is the wall-projected one, which is all a lossless reverse
+        # step reads (A = I); a lossy full-tensor reverse step averages the un-projected term of wall cells into neighbours
+        c["sources"] = []
+    if c["widths"] == "stretch":
+        r = np.random.default_rng(c["seed"] + 17)
+        c["widths"] = [[float(50e-9 * r.uniform(0.5, 2.0)) for _ in range(n)] for n in c["shape"]]
+    c.pop("sig_e", None)
+    c.pop("sig_h", None)
+    return c
+
+
+def aniso_materials(c):
+    """(E, H, inv_eps, inv_mu, sig_e, sig_h): random state and material arrays with the leading component counts of the case"""
+    from .yee_aniso_api import spd_tensor
+    r = np.random.default_rng(c["seed"])
+    nx, ny, nz = c["shape"]
+    shp = (nx, ny, nz)
+    cplx = bool(c.get("bloch"))
+
+    def field():
+        f = r.standard_normal((3, nx, ny, nz))
+        if cplx:
+            f = f + 1j * r.standard_normal((3, nx, ny, nz))
+        return f
+    E, H = field(), field()
+    ns = 0.1 if c.get("nonsym") else 0.0
+
+    def tens(tier, lo, hi, scale=1.0):
+        if tier is None:
+            return None
+        if tier == 0:
+            return float(r.uniform(lo, hi))
+        if tier == 9:
+            return scale * spd_tensor(r, shp, nonsym=ns)
+        return scale * r.uniform(lo, hi, (tier, nx, ny, nz))
+    inv_eps = tens(c["eps_tier"], 0.1, 1.0)
+    inv_mu = tens(c["mu_tier"], 0.3, 1.0)
+    # conductivities scaled so that the loss matrix f = c·η/2·inv·σ stays below ~0.5 (M1, M2 well conditioned)
+    sig_e = tens(c.get("sig_e_tier"), 0.2, 1.0, scale=2e-3)
+    sig_h = tens(c.get("sig_h_tier"), 0.2, 1.0, scale=4e2)
+    return E, H, inv_eps, inv_mu, sig_e, sig_h
+
+
+def aniso_impl(c):
+    """forward then backward on the real code at step t; returns everything K and the oracle need"""
+    j = Y.J()
+    jnp = j["jnp"]
+    from fdtdx.fdtd.update import update_E, update_H
+    sc = scene_of(c)
+    E, H, inv_eps, inv_mu, sig_e, sig_h = aniso_materials(c)
+    E, H = Y.wall_project(sc, E, H)
+    arrays = Y.with_state(sc, E, H, inv_eps, inv_mu, sig_e, sig_h)
+    t = min(c.get("t", 0), int(sc.config.time_steps_total) - 1)
+    st1 = Y.impl_forward(sc, arrays, t=t, n=1)
+    E1, H1 = np.asarray(st1[1].fields.E), np.asarray(st1[1].fields.H)
+    st0 = Y.impl_backward(sc, st1, n=1)
+    Eb, Hb = np.asarray(st0[1].fields.E), np.asarray(st0[1].fields.H)
+    src = None
+    if c.get("sources"):
+        zero = Y.with_state(sc, np.zeros_like(E), np.zeros_like(H), inv_eps, inv_mu, sig_e, sig_h)
+        tt = jnp.asarray(t, dtype=jnp.int32)
+        src = (np.asarray(update_E(tt, zero, sc.objects, sc.config, True).fields.E),
+               np.asarray(update_H(tt, zero, sc.objects, sc.config, True).fields.H))
+    return sc, (E, H), (E1, H1), (Eb, Hb), (inv_eps, inv_mu, sig_e, sig_h), src
+
+
+def aniso_lossless(c):
+    return c.get("sig_e_tier") is None and c.get("sig_h_tier") is None
+
+
+def aniso_case(ctx, c, sample=False):
+    """full-tensor tier: forward() / backward() of the real code vs the model (ops afwd / abwd), lossless and lossy;
+    round-trip oracle on the implementation for the lossless cases (the property claims lossless tensors only)"""
+    from .yee_aniso_api import request_aniso
+    sc, (E, H), (E1, H1), (Eb, Hb), (inv_eps, inv_mu, sig_e, sig_h), src = aniso_impl(c)
+    cplx = bool(c["bloch"])
+    l1 = request_aniso(sc, "afwd", E, H, inv_eps, inv_mu, sig_e, sig_h, src, 1, is_complex=cplx)
+    l2 = request_aniso(sc, "abwd", E1, H1, inv_eps, inv_mu, sig_e, sig_h, src, 1, is_complex=cplx)
+    r1, r2 = ctx.driver.ask_many([l1, l2])
+    mE1, mH1 = Y.decode_fields(r1, c["shape"], cplx)
+    mEb, mHb = Y.decode_fields(r2, c["shape"], cplx)
+    lossless = aniso_lossless(c)
+    kinds = sorted(set(c["faces"].values()))
+    ctx.case(sample={k: c[k] for k in ("shape", "faces", "eps_tier", "mu_tier", "sig_e_tier", "sig_h_tier", "seed")} if sample else None,
+             nontrivial=("aniso", tuple(c["shape"]), c["seed"]), aniso=True,
+             aniso_grid="nonuniform" if c["widths"] else "uniform", aniso_bloch=cplx, aniso_lossless=lossless,
+             aniso_fullE=c["eps_tier"] == 9 or c.get("sig_e_tier") == 9, aniso_fullH=c["mu_tier"] == 9 or c.get("sig_h_tier") == 9,
+             aniso_sigE9=c.get("sig_e_tier") == 9, aniso_sigH9=c.get("sig_h_tier") == 9, aniso_source=bool(c.get("sources")),
+             **{"aniso_face_" + k: True for k in kinds})
+    ctx.expect_close("aniso forward", c, np.concatenate([E1.ravel(), H1.ravel()]), np.concatenate([mE1.ravel(), mH1.ravel()]))
+    ctx.expect_close("aniso backward", c, np.concatenate([Eb.ravel(), Hb.ravel()]), np.concatenate([mEb.ravel(), mHb.ravel()]))
     ctx.impl_property_evals += 1
-    if d:
-        ctx.violation(c, d)
+    if lossless:
+        d = verdict(E, H, Eb, Hb)
+        if d:
+            ctx.violation(c, d)
+    else:
+        d = mats_fails(c)
+        if d:
+            ctx.violation(dict(c, oracle="mats"), d)
 
 
 def aniso_fails(c):
-    cplx = bool(c.get("bloch"))
-    sc = Y.build(c["shape"], c["faces"], widths=c.get("widths"), complex_fields=True if cplx else None,
-                 bloch_vector=c.get("bloch_vector", (0.0, 0.0, 0.0)))
-    r = np.random.default_rng(c["seed"])
-    nx, ny, nz = c["shape"]
-    E, H = r.standard_normal((3, nx, ny, nz)), r.standard_normal((3, nx, ny, nz))
-    if cplx:
-        E = E + 1j * r.standard_normal((3, nx, ny, nz))
-        H = H + 1j * r.standard_normal((3, nx, ny, nz))
-    E, H = Y.wall_project(sc, E, H)
-    # symmetric positive definite inverse-permittivity tensor per cell: A Aᵀ + 0.5 I, flattened row-major to 9 components
-    A = r.uniform(-0.3, 0.3, (3, 3, nx, ny, nz))
-    T = np.einsum("ik...,jk...->ij...", A, A) + 0.5 * np.eye(3)[:, :, None, None, None]
-    inv_eps = T.reshape(9, nx, ny, nz)
-    inv_mu = None
-    if c["seed"] % 2 == 0:   # every other case: full permeability tensor as well
-        B = r.uniform(-0.3, 0.3, (3, 3, nx, ny, nz))
-        inv_mu = (np.einsum("ik...,jk...->ij...", B, B) + 0.5 * np.eye(3)[:, :, None, None, None]).reshape(9, nx, ny, nz)
-    arrays = Y.with_state(sc, E, H, inv_eps, inv_mu)
+    """the property on the implementation: lossless full tensors round-trip exactly (lossy ones are outside the claim)"""
+    if c.get("oracle") == "mats":
+        return mats_fails(c)
+    if c.get("oracle") == "lossy_local":
+        return lossy_local_fails(c)
+    if "eps_tier" not in c or "sig_e_tier" not in c:   # replay files written before the K extension
+        c = dict(c, eps_tier=9, mu_tier=9 if c["seed"] % 2 == 0 else 0, sig_e_tier=None, sig_h_tier=None)
+        c.setdefault("sources", [])
+    if not aniso_lossless(c):
+        return None
+    sc, (E, H), _, (Eb, Hb), *_ = aniso_impl(c)
+    return verdict(E, H, Eb, Hb)
+
+
+def mats_fails(c):
+    """cell-local inverse of the update matrices on the implementation (mechanism anchor
+    compute_anisotropic_update_matrices_reverse; Lean: aniso_Arev_Afwd, aniso_Brev): A_rev·A = I, B_rev = A_rev·B"""
+    j = Y.J()
+    jnp = j["jnp"]
+    from fdtdx.fdtd.misc import compute_anisotropic_update_matrices as fw, compute_anisotropic_update_matrices_reverse as rv
+    from fdtdx.core.misc import expand_to_3x3
+    _, _, inv_eps, inv_mu, sig_e, sig_h = aniso_materials(c)
+    cn = 0.99 / np.sqrt(3.0)
+    for name, inv, sig, eta in (("E", inv_eps, sig_e, j["eta0"]), ("H", inv_mu, sig_h, 1.0 / j["eta0"])):
+        if sig is None:
+            continue
+        i3, s3 = expand_to_3x3(jnp.asarray(inv)), expand_to_3x3(jnp.asarray(sig))
+        A, B = (np.asarray(x) for x in fw(i3, s3, cn, eta))
+        Ar, Br = (np.asarray(x) for x in rv(i3, s3, cn, eta))
+        A, B, Ar, Br = (np.broadcast_to(x, (3, 3) + tuple(c["shape"])) for x in (A, B, Ar, Br))
+        e1 = np.max(np.abs(np.einsum("ij...,jk...->ik...", Ar, A) - np.eye(3)[:, :, None, None, None]))
+        e2 = np.max(np.abs(np.einsum("ij...,jk...->ik...", Ar, B) - Br))
+        if not (e1 <= 1e-9 and e2 <= 1e-9 * max(1.0, float(np.max(np.abs(Br))))):
+            return f"update matrices of {name}: |A_rev A - I| = {e1:.3e}, |A_rev B - B_rev| = {e2:.3e}"
+    return None
+
+
+def lossy_local_fails(c):
+    """lossy full tensors where the step is cell-local, so that the reverse step must undo it (Lean: aniso_lossy_cell_local):
+    homogeneous medium on a fully periodic domain and
+      inv_axis = None   spatially constant E and H (every neighbour average returns the value itself, the curls vanish), or
+      inv_axis = a      fields varying along axis a only and tensors coupling only the two OTHER components: every average
+                        the non-zero off-diagonal entries use shifts along the invariant axes only, hence is the identity"""
+    a = c.get("inv_axis")
+    c = dict(c, faces={k: "periodic" for k in Y.FACES}, bloch=False, bloch_vector=[0.0, 0.0, 0.0], sources=[])
+    sc = scene_of(c)
+    _, _, inv_eps, inv_mu, sig_e, sig_h = aniso_materials(c)
+
+    def homog(t):
+        if t is None or np.ndim(t) == 0:
+            return t
+        t = np.broadcast_to(t[:, :1, :1, :1], t.shape).copy()
+        if a is not None and t.shape[0] == 9:
+            t = t.reshape((3, 3) + t.shape[1:])
+            for b in range(3):
+                if b != a:
+                    t[a, b] = 0.0
+                    t[b, a] = 0.0
+            t = t.reshape((9,) + t.shape[2:])
+        return t
+    r = np.random.default_rng(c["seed"] + 5)
+    shp = (3,) + tuple(c["shape"])
+    if a is None:
+        E = np.broadcast_to(r.standard_normal(3)[:, None, None, None], shp).copy()
+        H = np.broadcast_to(r.standard_normal(3)[:, None, None, None], shp).copy()
+    else:
+        bs = [3, 1, 1, 1]
+        bs[a + 1] = c["shape"][a]
+        E = np.broadcast_to(r.standard_normal(bs), shp).copy()
+        H = np.broadcast_to(r.standard_normal(bs), shp).copy()
+    arrays = Y.with_state(sc, E, H, homog(inv_eps), homog(inv_mu), homog(sig_e), homog(sig_h))
     st1 = Y.impl_forward(sc, arrays, t=0, n=1)
     st0 = Y.impl_backward(sc, st1, n=1)
     return verdict(E, H, np.asarray(st0[1].fields.E), np.asarray(st0[1].fields.H))
@@ -236,8 +427,11 @@ def run(ctx):
         cases.append(gen_case(ctx.rng, ctx.thorough))
     for i, c in enumerate(cases):
         one_case(ctx, c, sample=i in (0, 1))
-    for _ in range(ctx.scale(5, 40)):
-        aniso_case(ctx, ctx.rng)
+    acases = [gen_aniso(ctx.rng, ctx.thorough, f) for f in ANISO_FORCED]
+    while len(acases) < ctx.scale(6, 40):
+        acases.append(gen_aniso(ctx.rng, ctx.thorough))
+    for i, c in enumerate(acases):
+        aniso_case(ctx, c, sample=i == 2)
 
 
 def property_fails(c):
@@ -250,11 +444,18 @@ def property_fails(c):
 def search(ctx, hints):
     for h in hints:
         if isinstance(h, dict) and "shape" in h:
-            ctx.impl_property_evals += 1
-            d = property_fails(h)
-            if d:
-                ctx.violation(h, d)
-                return
+            variants = [h]
+            if h.get("aniso") and not aniso_lossless(h):
+                # lossy full tensors: the claim is the cell-local inverse (constant state) and the lossless variant of the scene
+                variants = [dict(h, oracle="mats")] + [dict(h, oracle="lossy_local", inv_axis=a) for a in (None, 0, 1, 2)] + [
+                            dict(h, sig_e_tier=None, sig_h_tier=None, eps_tier=9 if h.get("sig_e_tier") == 9 else h["eps_tier"],
+                                 mu_tier=9 if h.get("sig_h_tier") == 9 else h["mu_tier"])]
+            for v in variants:
+                ctx.impl_property_evals += 1
+                d = property_fails(v)
+                if d:
+                    ctx.violation(v, d)
+                    return
     rng = ctx.rng.fork()
     for i in range(ctx.scale(40, 300)):
         c = gen_case(rng, False)
@@ -268,12 +469,15 @@ def search(ctx, hints):
         if d:
             ctx.violation(c, d)
             return
-    for i in range(ctx.scale(4, 30)):
-        c = gen_case(rng, False, dict(sources=[], sig_e=False, sig_h=False, aniso=True))
-        if c["bloch"]:
-            c["widths"] = None
-        elif c["widths"] is None and i % 2 == 0:
-            c["widths"] = [[50e-9 * rng.uniform(0.5, 2.0) for _ in range(n)] for n in c["shape"]]
+    for i in range(ctx.scale(6, 40)):
+        c = gen_aniso(rng, False, dict(sources=[], sig_e_tier=None, sig_h_tier=None))
+        if c["eps_tier"] != 9 and c["mu_tier"] != 9:
+            c["eps_tier"] = 9
+        if i % 2 == 0:
+            c["shape"] = [3, 3, 3]
+            if c["widths"]:
+                c["widths"] = [w[:3] for w in c["widths"]]
+        ctx.impl_property_evals += 1
         d = aniso_fails(c)
         if d:
             ctx.violation(c, d)
